@@ -99,6 +99,9 @@ Definition ipf_call_spec (P a : ty) : option (ty * ty) :=
   if sig_accepts_spec P a then Some (LV, sig_forward_spec P) else None.
 Definition fref_call_spec (fc P a : ty) : option (ty * ty) :=
   if sig_accepts_spec P a then Some ((if cst fc then CLV else LV), sig_forward_spec P) else None.
+(* P0792 [func.wrap.ref.ctor] function_ref(F&& f): Constraints is-invocable-using<cv T&>, T = remove_reference_t<F> (cv of the
+   signature: none here): the callable is always called as an lvalue *)
+Definition fref_ctor_wf_spec (q : pmfq) (a : ty) : bool := pmf_accepts_spec q (mkty (cst a) RL).
 (* [refwrap.invoke]: INVOKE(get(), std::forward<ArgTypes>(args)...) *)
 Definition refwrap_call_spec (tconst : bool) (a : ty) : option (ty * ty) :=
   Some ((if tconst then CLV else LV), a).
@@ -115,13 +118,15 @@ Definition get_all_spec (tc : ty) (kinds : list ty) : option (list ty) := map_op
 Definition apply_cats_spec (fc tc : ty) (kinds : list ty) : option (ty * list ty) :=
   do gs <- get_all_spec tc kinds; Some (fc, gs).
 
-(* [pairs.pair] assignment: copy overloads assign p.first; move overloads assign std::forward<U1>(p.first):
-   the member is move-assigned exactly when the source pair is a non-const rvalue and the source member is not a
-   reference *)
+(* [pairs.pair] assignment: the copy overloads (const pair&, const pair<U1,U2>&) assign p.first; the move overloads
+   (pair&&, pair<U1,U2>&&) assign std::forward<U1>(p.first), an expression of type U1&&: the member is move-assigned
+   exactly when the source pair is a non-const rvalue and U1&& is an rvalue reference to non-const, i.e. the source
+   member is neither const nor an lvalue reference (a const rvalue pair can only bind to the copy overloads) *)
 Definition pair_assign_spec (dk sk sc : ty) : option bool :=
-  match rf sc, cst sc, rf sk with
-  | RR, false, RNone => Some true
-  | _, _, _ => Some false
+  match rf sc, cst sc, rf sk, cst sk with
+  | RR, false, RNone, false => Some true
+  | RR, false, RR, false => Some true
+  | _, _, _, _ => Some false
   end.
 
 (* [tuple.creation] tuple_cat: the result is tuple<CTypes...>, CTypes the element types of all operands in order
@@ -188,9 +193,9 @@ Definition step_s (stateless : list Z) (n : nat) (a : astate) (o : op) : astate 
   match o with
   | OAssignTarget w t | OConvCopy w t | OConvMove w t | OCtorTarget w t =>
       (aset a w (Some (t, 0)), TAck)                       (* the wrapper holds a fresh copy of the target *)
-  | OCopyAssign w v | OCopyCtor w v =>
+  | OCopyAssign w v | OCopyCtor w v | OConvCopyAssign w v | OConvCopyCtorW w v =>
       (aset a w (slots a v), TAck)                         (* copy duplicates: v keeps its target *)
-  | OMoveAssign w v | OMoveCtor w v =>
+  | OMoveAssign w v | OMoveCtor w v | OConvMoveAssign w v | OConvMoveCtorW w v =>
       if Nat.eqb w v then (a, TAck)
       else (aset (aset a w (slots a v)) v None, TAck)      (* move transfers: the source becomes empty *)
   | OReset w | OCtorNull w | OAssignNullFn w | OCtorNullFn w =>
@@ -399,6 +404,11 @@ Definition refwrap_std_spec (x : Z) : Z * Z := (x + 1, Z.abs x mod 7).
    move operations are deleted, libstdc++ additionally deletes the overload while the standard's wording lets the generic
    std::swap copy: that combination is left out of the comparison.) *)
 Definition pair_swappable_spec (a b : elem) : bool := elem_swappable a && elem_swappable b.
+
+(* [tuple.special] swap(tuple&, tuple&): Constraints is_swappable_v<T> for every element type; calls x.swap(y), which swaps
+   element by element -- reference elements exchange the values they refer to *)
+Definition tuple_swappable_spec (es : list elem) : bool := forallb elem_swappable es.
+Definition tuple_swap_refs_spec (a b c d : Z) : list Z := [c; d; a; b; a; b; c; d].
 
 (* [func.wrap.ref.ctor]: function_ref(F* f) with is_function_v<F> initialises bound-entity with f (the pointer itself);
    [func.wrap.ref.class]: operator=(T) is deleted unless T is function_ref or a pointer *)
